@@ -10,13 +10,16 @@ CONSTANTS
   DEV_AddRebuildsFirst = FALSE
   DEV_DeferredRemoveKeepsPolygon = FALSE
   DEV_ForkSharesLanelets = FALSE
-  ForkAll = TRUE
+  ForkAll = FALSE
   DEV_DrawMovesVertices = FALSE
+  DEV_RectKeepsExportedPolygon = FALSE
+  ShapeHist = TRUE
   DEV_DiscHalfRadius = FALSE
 INVARIANT TypeOK
 INVARIANT IndexMirrors
 INVARIANT BufMirrors
 INVARIANT OriginalIsolated
+INVARIANT ShapeAnswers
 INVARIANT DirtyOnlyPending
 INVARIANT QueriesExact
 INVARIANT LawsPoint
